@@ -56,7 +56,7 @@ theorem C03_future_first (st : St) (imp : Imp) (ml : Option Nat) (id : Nat)
       obtain ⟨x, _, hx⟩ := hm
       split at hx
       · rename_i i s l e bl set hfd
-        by_cases hok : lineOk bl l ml = true
+        by_cases hok : candOk imp bl l ml set = true
         · rw [if_pos hok] at hx
           simp at hx
           obtain ⟨hkey, rfl⟩ := hx
@@ -73,6 +73,38 @@ theorem C03_future_first (st : St) (imp : Imp) (ml : Option Nat) (id : Nat)
             exact ⟨j, hj, by omega⟩
         · rw [if_neg hok] at hx; cases hx
       · cases hx
+
+/-- **C03_future_joins_future_block** — the block selected for a `__future__` import holds a `from __future__`
+    import already (not merely `import __future__`, which is an ordinary import and may follow code). -/
+theorem C03_future_joins_future_block (st : St) (imp : Imp) (ml : Option Nat) (id : Nat)
+    (h : selectBlock st imp ml = some id) (hf : isFuture imp = true) :
+    ∃ s l e bl set, st.blocks.find? (fun b => blockId b = some id) = some (.imports id s l e bl set) ∧
+      set.any isFuture = true := by
+  unfold selectBlock at h
+  split at h
+  · cases h
+  · rename_i k id' hp
+    have hid : id' = id := by split at h <;> simp_all
+    subst hid
+    have hm := pickBest_mem _ _ hp
+    unfold candidates at hm
+    simp only [List.mem_filterMap] at hm
+    obtain ⟨x, _, hx⟩ := hm
+    split at hx
+    · rename_i i s l e bl set hfd
+      by_cases hok : candOk imp bl l ml set = true
+      · rw [if_pos hok] at hx
+        simp at hx
+        obtain ⟨_, rfl⟩ := hx
+        have hb := List.find?_some hfd
+        simp [blockId] at hb
+        subst hb
+        refine ⟨s, l, e, bl, set, hfd, ?_⟩
+        unfold candOk at hok
+        rw [Bool.and_eq_true, hf] at hok
+        simpa using hok.2
+      · rw [if_neg hok] at hx; cases hx
+    · cases hx
 
 /-- sharing the first dotted component with a `__future__` import means being
     an import from `__future__` -/
